@@ -844,7 +844,7 @@ func c21(c *Ctx) {
 		return
 	}
 	findings := os.Getenv("VERIF_FINDINGS") != ""
-	nG := c.N(40, 320)
+	nG := c.N(40, 480)
 	batchSize := c.N(40, 80)
 	c21Shipped(c)
 	for done := 0; done < nG; done += batchSize {
